@@ -894,3 +894,154 @@ def _cone_has(F, fn, targets):
     if fn not in F.bodies or "gitsync" not in fn:
         return False
     return any(roles.norm(x) in targets for x in F.reachable_from([fn]))
+
+
+def rule_GS1(F, R):
+    R.begin("GS1", "git backend: the key follows the salt. Whenever a method replaces the cached metadata (whose salt may be the one another replica pushed first), the cryptor is derived again from the new salt, unless the two salts were compared and found equal; otherwise this handle seals and opens with a key nobody else has")
+    from tc.util import bool_origin, ref_base
+    n = 0
+
+    def field_assigns(b, c, name):
+        out = []
+        for i in sorted(c.reach):
+            for st in c.blocks[i]["s"]:
+                if st["k"] != "assign":
+                    continue
+                pr = [e for e in st["l"]["p"] if e != "deref"]
+                if len(pr) == 1 and isinstance(pr[0], dict) and pr[0].get("n") == name and "GitSyncServer" in b["locals"][st["l"]["l"]]["ty"]:
+                    out.append((i, st))
+        return out
+
+    for p, b in sorted(F.bodies.items()):
+        if "gitsync" not in p or b["kind"] not in ("AssocFn", "Fn", "Closure") or not b.get("blocks"):
+            continue
+        c = cfg_of(b)
+        sites = field_assigns(b, c, "meta")
+        if not sites:
+            continue
+        fl = flow_of(b)
+        loaders = lambda t: not any(x.endswith("Cryptor::new") for x in call_names(t))   # every other call is a source
+        cry = {i for (i, st) in field_assigns(b, c, "cryptor") if st["r"]["k"] == "use" and fl.slice_operand(st["r"]["o"]).has_call(r"Cryptor::new$")}
+        for (i, st) in sites:
+            n += 1
+            src_local = op_place(st["r"]["o"])["l"] if st["r"]["k"] == "use" and op_place(st["r"]["o"]) else None
+            newmeta = fl.slice_operand(st["r"]["o"], stop=loaders) if st["r"]["k"] == "use" else None
+            srcs = {r[1] for r in newmeta.roots if r[0] == "call"} if newmeta else set()
+            derived = False
+            for (kk, tt) in c.calls():
+                if any(x.endswith("Cryptor::new") for x in call_names(tt)) and any(c.dominates(kk, k) for k in cry):
+                    ss = fl.slice_operand(tt["args"][0], stop=loaders)
+                    if srcs and {r[1] for r in ss.roots if r[0] == "call"} >= srcs and not ss.params():
+                        derived = True
+            # edges on which the new and the cached salt are known to be equal
+            eq_edges = set()
+            for s in sorted(c.reach):
+                t = c.term(s)
+                if not t or t["k"] != "switch":
+                    continue
+                bo = bool_origin(fl, t["o"])
+                if not bo or not any(re.search(r"PartialEq::(eq|ne)$", x) for x in call_names(bo[1])) or len(bo[1]["args"]) != 2:
+                    continue
+                bases = [ref_base(fl, a) for a in bo[1]["args"]]
+                sides = set()
+                for bl_ in bases:
+                    if bl_ is None:
+                        continue
+                    if bl_ == 1 or (b["locals"][bl_].get("name") == "self"):
+                        sides.add("cached")
+                    else:
+                        sl_ = fl.slice_local(bl_, stop=loaders)
+                        if srcs and {r[1] for r in sl_.roots if r[0] == "call"} >= srcs and not sl_.params():
+                            sides.add("new")
+                if sides != {"cached", "new"}:
+                    continue
+                is_ne = any(x.endswith("PartialEq::ne") for x in call_names(bo[1]))
+                for (j, lab) in c.succ[s]:
+                    val = (lab != "0") != bool(bo[2])      # value of the eq/ne call on this edge
+                    if ((not val) if is_ne else val):
+                        eq_edges.add((s, j))
+            r = c.reachable(0, removed=cry, removed_edges=eq_edges)
+            if not derived or i in r:
+                R.violation("GS1", F.owner(p), "meta-replaced-key-kept", "the cached metadata is replaced (a salt pushed by another replica may come with it) but the cryptor keeps the key derived from the old salt: versions written by the replica that initialised the remote first cannot be opened by this handle, and what it seals nobody else can open", where(b, i))
+            else:
+                R.ok("GS1", "metadata replaced: key derived again from the new salt unless the salts are equal", where(b, i))
+    R.floor("GS1", "places where the git backend replaces its cached metadata", n, 1)
+
+
+def _git_commits_fn(F):
+    memo = {}
+
+    def commits(fn, depth=0):
+        """every successful return of fn has passed `git commit`"""
+        fn = roles.norm(fn)
+        if fn in memo:
+            return memo[fn]
+        memo[fn] = False
+        fb = F.real_body(fn) if fn in F.bodies else None
+        if fb is None or "gitsync" not in fn or depth > 4:
+            return False
+        fc = cfg_of(fb)
+        cm = set()
+        for (i, t) in fc.calls():
+            if any(a.get("k", {}).get("repr", "").strip('"') == "commit" for a in t["args"] if "k" in a) or any(commits(n, depth + 1) for n in call_names(t) if roles.norm(n) in F.bodies and roles.norm(n) != fn):
+                cm.add(i)
+        if "commit" in roles.body_literals(F, fb, depth=0) and not cm:
+            cm = {i for (i, t) in fc.calls() if any("Git::cmd" in n for n in call_names(t))}
+        if not cm:
+            return False
+        r = fc.reachable(0, removed=cm | error_blocks(fc))
+        res = not any(k in r for k in fc.exits())
+        memo[fn] = res
+        return res
+    return commits
+
+
+def rule_GC5(F, R):
+    R.begin("GC5", "git backend with a remote: the clone is never left ahead of the remote. (a) in add_version every way out after a successful commit has either seen push() return true or has undone the commit (reset HEAD~1); (b) opening a repository reconciles the clone with the remote before anything is served from it. Otherwise get_child_version serves the unpushed version from the local files to the replica whose push was interrupted: it drops its pending operations as already synchronised, the next fetch wipes the version, and the operations never reach the server")
+    from tc.util import bool_origin, switch_true_edges
+    ms = impl_methods(F)
+    b = ms.get(("git", "add_version"))
+    if b is None:
+        R.missing("GC5", "git add_version")
+        return
+    commits = _git_commits_fn(F)
+    c = cfg_of(b)
+    fl = flow_of(b)
+    pushers = {roles.norm(x) for x in roles.git_cmd_fns(F, "push")}
+    cm = [(i, t) for (i, t) in c.calls() if any(commits(x) for x in call_names(t))]
+    pu = [(i, t) for (i, t) in c.calls() if any(roles.norm(x) in pushers for x in call_names(t))]
+    undo = {i for (i, t) in c.calls() if any("HEAD~1" in (sv or "") for a in t["args"] if ("c" in a or "m" in a) for sv in const_strs(fl.slice_operand(a, through_all_calls=False), F))}
+    if not cm or not pu:
+        R.missing("GC5", "the commit step / the push step of git add_version")
+        return
+    push_true = set()
+    for s in sorted(c.reach):
+        t = c.term(s)
+        if t and t["k"] == "switch":
+            bo = bool_origin(fl, t["o"])
+            if bo and bo[0] in {i for i, _t in pu}:
+                for (s_, j, lab) in switch_true_edges(c, s, bo[2]):
+                    push_true.add((s_, j))
+    for (i, t) in cm:
+        arms = _result_arms(c, i)
+        if arms is None:
+            R.violation("GC5", b["owner_fn"], "commit-result-untested", "the result of the commit step is not tested", where(b, i))
+            continue
+        r = set()
+        for s in arms[0]:
+            r |= c.reachable(s, removed=undo, removed_edges=push_true)
+        bad = [k for k in c.exits() if k in r]
+        if bad:
+            R.violation("GC5", b["owner_fn"], "unpushed-commit-left-behind", "after the commit, add_version can return without push() having returned true and without undoing the commit (the error path of `push()?`: the git binary could not be started): the clone is ahead of the remote and serves the unpushed version", where(b, i))
+        else:
+            R.ok("GC5", "add_version: after the commit, every way out has pushed or undone it", where(b, i))
+    # (b) open path
+    fetchers = {roles.norm(x) for x in roles.git_cmd_fns(F, "fetch")}
+    cone = {roles.norm(x) for x in F.reachable_from(["server::gitsync::GitSyncServer::new"])}
+    nb = F.bodies.get("server::gitsync::GitSyncServer::new")
+    if nb is None:
+        R.missing("GC5", "GitSyncServer::new")
+    elif cone & fetchers:
+        R.ok("GC5", "opening a repository consults the remote", where(nb))
+    else:
+        R.violation("GC5", "server::gitsync::GitSyncServer::new", "open-keeps-unpushed-commit", "opening a repository with a remote never compares the clone with the remote: a commit made by an add_version that stopped before its push stays, and its version is served from the local files", where(nb))
